@@ -20,7 +20,7 @@ LEVEL = "exploration"
 TECHNIQUE = "bounded exhaustive enumeration of (valid call, single ill-posing edit) pairs on every axis layout; the edited real call must raise"
 RULE = "case = (valid call, edit); every case is non-trivial by construction: its unedited twin returned on the same grid"
 SPACE = {
-    "quick": "16 layouts x n in {2,3,4} x valid shifts x {diff,interp,min,max,cumsum} x edits {unknown axis, unknown axis in list, data lacks axis dim, data has two axis dims (each other position), to = current position, to = each position the axis lacks, to = unknown word, unknown boundary word (call scalar / call mapping / constructor), string fill value (call scalar / call mapping / constructor) on padded shifts}; transform edits (bins as ndarray and as DataArray); grid ufunc edits; metric operations (integrate, average, get_metric, derivative, cumint, metric_weighted) x {unknown axis, lacking / doubled axis dimension}",
+    "quick": "16 layouts x n in {2,3,4} x valid shifts x {diff,interp,min,max,cumsum} x edits {unknown axis, unknown axis in list, data lacks axis dim, data has two axis dims (each other position), to = current position, to = each position the axis lacks, to = unknown word, unknown boundary word (21 words incl. the numpy.pad mode names, capitalisations and near misses; call scalar: all, call mapping / constructor: every 5th), string fill value (call scalar / call mapping / constructor) on padded shifts}; transform edits (bins as ndarray and as DataArray); grid ufunc edits; metric operations (integrate, average, get_metric, derivative, cumint, metric_weighted) x {unknown axis, lacking / doubled axis dimension}",
     "thorough": "n in {2,3,4,5,6}",
 }
 BOUNDS = {"quick": {"n": [2, 3, 4]}, "thorough": {"n": [2, 3, 4, 5, 6]}}
@@ -29,6 +29,10 @@ ASSUMPTIONS = [
     "list-valued fill values are not 'non-numeric' (NumPy reads them as per-side values)",
     "a dask-backed answer is computed: an exception raised by the computation counts as the refusal",
 ]
+# unknown boundary words: not one of fill / extend / periodic.  Besides plain nonsense: the mode names of numpy.pad /
+# xarray.pad (what the library translates its own words into), other capitalisations, near misses
+BAD_WORDS = ("constant", "edge", "wrap", "reflect", "symmetric", "mean", "empty", "linear_ramp", "maximum", "minimum", "median",
+             "Fill", "EXTEND", "Periodic", "fil", "extended", "periodic ", "", "none", "nearest", "zero")
 CUMSUM_PADS = {("center", "left"), ("right", "center"), ("center", "outer"), ("inner", "center")}
 OPS = ("diff", "interp", "min", "max", "cumsum")
 
@@ -91,6 +95,22 @@ def layout_edits(rec, li, n, seed, only=None):
             if pads:
                 edits.append(("unknown-boundary-word", call(boundary="bogus")))
                 edits.append(("unknown-boundary-word-in-mapping", call(boundary={"X": "bogus"})))
+                k0 = (li * 7 + n * 3 + S.SHIFTS.index((fr, to)) + OPS.index(op)) % len(BAD_WORDS)
+                for j, w in enumerate(BAD_WORDS):
+                    edits.append((f"unknown-boundary-word:{w!r}", call(boundary=w)))
+                    if (j - k0) % 5 == 0:
+                        edits.append((f"unknown-boundary-word-in-mapping:{w!r}", call(boundary={"X": w})))
+
+                        def ctor_w(w=w):
+                            gg = build_grid({"X": layout}, {"X": n}, dict(periodic=False, boundary=w))
+                            return getattr(gg, op)(da, "X", to=to)
+
+                        def ctor_wm(w=w):
+                            gg = build_grid({"X": layout}, {"X": n}, dict(periodic=False, boundary={"X": w}))
+                            return getattr(gg, op)(da, "X", to=to)
+
+                        edits.append((f"unknown-boundary-word-at-construction:{w!r}", ctor_w))
+                        edits.append((f"unknown-boundary-word-in-mapping-at-construction:{w!r}", ctor_wm))
                 edits.append(("string-fill-value", call(boundary="fill", fill_value="abc")))
                 edits.append(("string-fill-value-in-mapping", call(boundary="fill", fill_value={"X": "abc"})))
                 # text that spells a number is still not a number
@@ -128,7 +148,7 @@ def layout_edits(rec, li, n, seed, only=None):
                 if only is not None and only != case:
                     continue
                 rec.case(("lay", li, n, fr, to, op, name), True, sample=case)
-                attempt(rec, "grid-op", f"{name}:{op}" if not name.startswith(("data-has", "to-position")) else f"{name.split(':')[0]}:{op}", case, fn)
+                attempt(rec, "grid-op", f"{name.split(':')[0]}:{op}", case, fn)
 
 
 def transform_edits(rec, seed, only=None):
@@ -160,6 +180,10 @@ def transform_edits(rec, seed, only=None):
         "log": lambda g: g.transform(da, "Z", lev, target_data=td + 1, method="log"),
         "conservative": lambda g: g.transform(da, "Z", bins, target_data=tdo, method="conservative"),
         "conservative-center": lambda g: g.transform(da, "Z", bins, target_data=td, method="conservative"),
+        # valid calls that ask to skip the (costly) checks of the *data*: the request itself must still be well posed
+        "linear-bypass": lambda g: g.transform(da, "Z", lev, target_data=td, bypass_checks=True),
+        "log-bypass": lambda g: g.transform(da, "Z", lev, target_data=td + 1, method="log", bypass_checks=True),
+        "conservative-bypass": lambda g: g.transform(da, "Z", bins, target_data=tdo, method="conservative", bypass_checks=True),
     }
     g0 = mk()
     for name, fn in valid.items():
@@ -173,15 +197,16 @@ def transform_edits(rec, seed, only=None):
         edits = [("periodic-axis", lambda fn=fn: fn(mk(periodic=True))), ("periodic-axis-by-boundary", lambda fn=fn: fn(mk(boundary="periodic"))),
                  ("periodic-axis-by-list", lambda fn=fn: fn(mk(periodic=["Z"]))), ("unknown-axis", lambda name=name: g0.transform(da, "Q", lev, target_data=td))]
         if name.startswith("conservative"):
-            for bi, bad in enumerate(([0.0, 2.0, 1.0], [0.0, 1.0, 1.0], [3.0, 1.0, 2.0, 0.0], [1.0, 1.0])):
-                t_d = tdo if name == "conservative" else td
+            # (the monotonicity of the bins is one of the data checks that bypass_checks=True deliberately skips)
+            for bi, bad in enumerate(([0.0, 2.0, 1.0], [0.0, 1.0, 1.0], [3.0, 1.0, 2.0, 0.0], [1.0, 1.0]) if not name.endswith("bypass") else ()):
+                t_d = tdo if name in ("conservative", "conservative-bypass") else td
                 edits.append((f"non-monotonic-bins:{bi}", lambda bad=bad, t_d=t_d: g0.transform(da, "Z", np.array(bad), target_data=t_d, method="conservative")))
                 # the same bins handed over as a DataArray without a coordinate / with a label coordinate
                 edits.append((f"non-monotonic-bins-dataarray:{bi}", lambda bad=bad, t_d=t_d: g0.transform(
                     da, "Z", xr.DataArray(np.array(bad), dims=["bins"]), target_data=t_d, method="conservative")))
                 edits.append((f"non-monotonic-bins-labelled-dataarray:{bi}", lambda bad=bad, t_d=t_d: g0.transform(
                     da, "Z", xr.DataArray(np.array(bad), dims=["bins"], coords={"bins": np.arange(len(bad))}), target_data=t_d, method="conservative")))
-            edits.append(("no-outer-position", lambda: mk(outer=False).transform(da, "Z", bins, target_data=td, method="conservative")))
+            edits.append(("no-outer-position", lambda name=name: mk(outer=False).transform(da, "Z", bins, target_data=td, method="conservative", bypass_checks=name.endswith("bypass"))))
         for ename, efn in edits:
             case = dict(kind="transform", call=name, edit=ename)
             if only is not None and only != case:
